@@ -221,3 +221,64 @@ fn c15_witness() {
     core::mem::forget(r2);
     core::mem::forget(kp);
 }
+
+// ---- public JWK of an EC key: fixed-width coordinates for x, y of ANY minimal length ------------
+// acme_common::b64_encode is cut in this unit (records the length of its input, returns an empty
+// string): the real base64 + serde_json path over 32..66 symbolic bytes exceeded 20 GB.
+fn ecdsa_jwk(kt: KeyType, size: usize, thumb: bool) {
+    let kp = ec_key(kt);
+    st().b64_calls = 0;
+    let r = if thumb { kp.jwk_public_key_thumbprint() } else { kp.jwk_public_key() };
+    match &r {
+        Ok(_v) => {
+            let s = st();
+            assert!(s.b64_calls == 2, "C15: an EC JWK encodes exactly two coordinates");
+            assert!(s.b64_in_len[0] == size, "C15: JWK x is not encoded from exactly `size` bytes (fixed width)");
+            assert!(s.b64_in_len[1] == size, "C15: JWK y is not encoded from exactly `size` bytes (fixed width)");
+        }
+        Err(_) => assert!(false, "C15: JWK construction failed"),
+    }
+    core::mem::forget(r);
+    core::mem::forget(kp);
+}
+fn rsa_jwk(thumb: bool) {
+    let kp = KeyPair { key_type: KeyType::Rsa2048, inner_key: PKey { id: Id::RSA, param: 256, kid: 3, _t: PhantomData } };
+    st().b64_calls = 0;
+    let r = if thumb { kp.jwk_public_key_thumbprint() } else { kp.jwk_public_key() };
+    match &r {
+        Ok(_v) => {
+            let s = st();
+            assert!(s.b64_calls == 2 && s.b64_in_len[0] == s.rsa_e_len && s.b64_in_len[1] == s.rsa_n_len, "C15: RSA JWK e and n must be the minimal big-endian vectors");
+        }
+        Err(_) => assert!(false, "C15: JWK construction failed"),
+    }
+    core::mem::forget(r);
+    core::mem::forget(kp);
+}
+// serde_json's Map::insert (BTreeMap<String, Value>) is stubbed in these harnesses: the JSON object
+// itself is not inspected here, only what is handed to the encoder.
+fn map_insert_stub(_m: &mut serde_json::Map<String, Value>, k: String, v: Value) -> Option<Value> {
+    core::mem::forget(k);
+    core::mem::forget(v);
+    None
+}
+macro_rules! jwk_inst {
+    ($n:ident, $kt:expr, $size:expr, $th:expr) => {
+        #[kani::proof]
+        #[kani::stub(serde_json::Map::insert, map_insert_stub)]
+        #[kani::unwind(2)]
+        fn $n() {
+            ecdsa_jwk($kt, $size, $th);
+        }
+    };
+}
+jwk_inst!(c15_ecdsa_jwk_p256, KeyType::EcdsaP256, 32, false);
+jwk_inst!(c15_ecdsa_jwk_thumbprint_p256, KeyType::EcdsaP256, 32, true);
+jwk_inst!(c15_ecdsa_jwk_p384, KeyType::EcdsaP384, 48, false);
+jwk_inst!(c15_ecdsa_jwk_p521, KeyType::EcdsaP521, 66, false);
+#[kani::proof]
+#[kani::stub(serde_json::Map::insert, map_insert_stub)]
+#[kani::unwind(2)]
+fn c15_rsa_jwk() {
+    rsa_jwk(kani::any());
+}
